@@ -1,5 +1,6 @@
 import TruthModel.Driver.Sexp
 import TruthModel.Driver.C11
+import TruthModel.Driver.C03
 /-
 Line-protocol driver: `truthmodel <property-id>` reads one S-expression case per line on stdin and
 prints the model's canonical result line for it.  Imports only the import-free model files so it
@@ -10,6 +11,8 @@ open TruthModel
 def handler (id : String) : Sexp → Sexp :=
   match id with
   | "C11" => Driver.C11.handle
+  | "C03" => Driver.C03.handle
+  | "C16" => Driver.C03.handle
   | _ => fun _ => .atom "unknown-property"
 
 partial def loop (h : IO.FS.Stream) (out : IO.FS.Stream) (f : Sexp → Sexp) : IO Unit := do
